@@ -30,13 +30,16 @@ Definition arity_tab : list (string * (nat * nat * nat)) := [
   ("FREDKIN", (1, 2, 0)); ("TOFFOLI", (2, 1, 0)); ("IDLE", (0, 1, 0));
   (* names of GATE_CLASS_MAP that are not in dispatch *)
   ("H", (0, 1, 0)); ("iSWAP", (0, 2, 0)); ("SWAPALPHA", (0, 2, 1)); ("MS", (0, 2, 2)); ("CX", (1, 1, 0));
-  ("RZX", (0, 2, 1))].
+  ("RZX", (0, 2, 1));
+  (* the scalar gate: no qubit, one parameter *)
+  ("GLOBALPHASE", (0, 0, 1))].
 Definition arity (n : string) : option (nat * nat * nat) := assoc n arity_tab.
 
 (* the matrix of a gate by name: Gate(name).get_compact_qobj (dispatch); names that only have a dedicated class
    (H, iSWAP, SWAPALPHA, MS, CX, RZX: what add_gate(name) instantiates) take the matrix of that class.  For names in both
    tables the two matrices agree (C09: lib_paths_agree). *)
 Definition gate_mexp (n : string) : option mexp :=
+  if String.eqb n "GLOBALPHASE" then Some (MLit [[globalphase_ex]]) else    (* 1 x 1 matrix on no qubit: e^{i arg} *)
   match assoc n dispatch with
   | Some m => Some m
   | None => match assoc n class_map with Some c => assoc c class_mat | None => None end
@@ -61,7 +64,7 @@ Definition wf_instr (g : instr) : option mexp :=
 (* ------------------------------------------------------------------------------------------------ *)
 (* the symbolic obligations *)
 Definition shape_ok (nc nt : nat) : bool :=
-  match nc, nt with 0, 1 | 0, 2 | 1, 1 | 1, 2 | 2, 1 => true | _, _ => false end.
+  match nc, nt with 0, 0 | 0, 1 | 0, 2 | 1, 1 | 1, 2 | 2, 1 => true | _, _ => false end.
 
 (* rule case B: same name, same targets, arbitrary controls *)
 Definition chkB2 (m : mexp) : bool :=          (* two controls, one target: {c1,c2} against {c3,c4} *)
@@ -259,6 +262,7 @@ Proof.
     destruct ca as [|c1 [|c2 [|c3 ca]]]; try discriminate La;
     destruct cb as [|d1 [|d2 [|d3 cb]]]; try discriminate Lb;
     destruct t as [|t1 [|t2 [|t3 t]]]; try discriminate Lt; ndinv.
+  - (* no qubit: two scalars *) fin Hc (@nil nat).
   - (* 0 controls, 1 target *) fin Hc [t1].
   - (* 0 controls, 2 targets *) fin Hc [t1; t2].
   - (* 1 control, 1 target *)
